@@ -37,6 +37,7 @@ def gen_walk(seed, idx):
     ops = [{"k": "call", "t": 0.0, "f": "start", "a": []}]
     t = 0.01
     sent = 0
+    fresh_used = False
     # one other destination starts close to its own wrap, so that wraps happen at different moments
     pre = r.choice(others)
     ops.append({"k": "call", "t": 0.005, "f": "send_burst", "a": [[OFFER], pre, 0xFFFF - r.randint(1, 4000)]})
@@ -50,6 +51,11 @@ def gen_walk(seed, idx):
         ops.append({"k": "call", "t": round(t, 6), "f": "send_burst", "a": [[OFFER], target, n]})
         sent += n
         t += 0.001
+        if sent > 0xFFFF and not fresh_used:
+            # a destination that is contacted for the first time only after another one has wrapped
+            fresh_used = True
+            ops.append({"k": "call", "t": round(t, 6), "f": "send_burst", "a": [[OFFER], 3, r.randint(1, 5)]})
+            t += 0.001
         for _ in range(r.randint(0, 3)):
             x = r.random()
             d = r.choice(others)
